@@ -351,6 +351,12 @@ def run(prog, rep, tier, repo):
                         points.append((pidx, pn, xv))
             ref = spec['pdf'] if meth in ('pdf', 'pmf') else spec[meth]
             st, info = compare(alts, ref, points)
+            if st == 'ok' and meth in ('pdf', 'pmf'):
+                # the set of alternatives is path-insensitive where a branch condition is a disjunction (`(dof == 1 && x <= 0.) || x < 0.`):
+                # at every grid point the return sites that are *reachable for that point* are evaluated as well (witness evaluation, §9.8)
+                ps = _path_sensitive(prog, k, fnames, ref, points)
+                if ps is not None:
+                    st, info = 'viol', ps
             if st == 'ok':
                 rep.ok('textbook', key, '%s agrees with the textbook formula at %d parameter/argument points: %s' % (meth, info, show_expr(ret)[:100]))
             elif st == 'viol':
@@ -520,6 +526,67 @@ def _check_nonneg(prog, rep, f, path, key, name, m):
         rep.undecided('non-negative', key, 'not proved non-negative: ' + problems[0], site_of(f.body), proof=False)
     else:
         rep.ok('non-negative', key, '%s::%s >= 0 on every path (%s)' % (name, m, '; '.join(details)[:200]))
+
+
+def _path_sensitive(prog, k, fnames, ref, points):
+    """witness dict of the first grid point at which every return site of body k that is reachable for that point evaluates to
+    something other than the reference value(s); None when there is none (or nothing could be evaluated)"""
+    import math
+    from ..precond import NC, Frame, tev, Uneval, _nk
+    from ..formula import close
+    f = prog.func(k)
+    if f is None:
+        return None
+
+    def tg(x):
+        try:
+            return math.gamma(x)
+        except (ValueError, OverflowError):
+            raise Uneval('gamma range')
+
+    def lg(x):
+        try:
+            return math.lgamma(x)
+        except (ValueError, OverflowError):
+            raise Uneval('lgamma range')
+
+    def bc(n, kk):
+        c_ = math.comb(int(n), int(kk))
+        if c_ >= 2 ** 64:
+            raise Uneval('u64 range')
+        return c_
+    fns = {'functions::gamma::gamma': tg, 'functions::gamma::ln_gamma': lg, 'functions::gamma::beta': lambda a, b: math.exp(lg(a) + lg(b) - lg(a + b)),
+           'functions::combinatorial::binom_coeff': bc, 'functions::statistical::erf': math.erf}
+    ncx = NC(prog)
+    me = ('arg', 1, None)
+    for pidx, pname, xv in points:
+        try:
+            want = ref(pname, xv)
+        except Exception:
+            continue
+        if want is None:
+            continue
+        wants = want if isinstance(want, tuple) else (want,)
+        env = {'__fn__': fns, _nk(('arg', 2, None)): xv}
+        for i, v in pidx.items():
+            env[_nk(('field', me, i, None))] = v
+        ctx = Frame(f, env=env, ncx=ncx)
+        try:
+            live = ncx.reachable(f, ctx)
+            vals = []
+            for d in f._defs.get(0, []):
+                if d[1] not in live:
+                    continue
+                t = f.rvalue_term(d[3], d[1]) if d[0] == 'assign' else f.call_term(d[2], d[1])
+                vals.append(tev(t, ctx))
+        except (Uneval, RecursionError, TypeError, ValueError, OverflowError, ZeroDivisionError):
+            continue
+        if not vals or not all(isinstance(v, (int, float)) and not isinstance(v, bool) for v in vals):
+            continue
+        if any(close(float(v), float(w)) for v in vals for w in wants):
+            continue
+        return {'params': pname, 'x': xv, 'textbook': wants[-1], 'code': float(vals[0]), 'all': [float(v) for v in vals]}
+    return None
 
 
 def _mvn_density(prog, rep):
